@@ -515,3 +515,74 @@ impl<'a> MoveContext<'a> {
         MoveContext::Activity { solution_ctx, route_ctx, activity_ctx }
     }
 }
+
+/// Verification hook (guarded by `--cfg reinterpretcat_vrp_verif`): renders cached state values so that a harness
+/// can compare the state of a context with the state recomputed from bare tours. Adds no behaviour.
+#[cfg(reinterpretcat_vrp_verif)]
+mod verif_digest {
+    use super::*;
+    use crate::models::common::{MultiDimLoad, SingleDimLoad};
+    use std::collections::HashSet;
+
+    type Index = HashMap<TypeId, Arc<dyn Any + Send + Sync>, BuildHasherDefault<FxHasher>>;
+
+    fn render_value(any: &(dyn Any + Send + Sync)) -> Option<String> {
+        if let Some(v) = any.downcast_ref::<Vec<Float>>() {
+            return Some(format!("vf:{v:?}"));
+        }
+        if let Some(v) = any.downcast_ref::<Float>() {
+            return Some(format!("f:{v:?}"));
+        }
+        if let Some(v) = any.downcast_ref::<usize>() {
+            return Some(format!("u:{v:?}"));
+        }
+        if let Some(v) = any.downcast_ref::<String>() {
+            return Some(format!("s:{v:?}"));
+        }
+        if let Some(v) = any.downcast_ref::<HashSet<String>>() {
+            let mut v = v.iter().cloned().collect::<Vec<_>>();
+            v.sort();
+            return Some(format!("hs:{v:?}"));
+        }
+        if let Some(v) = any.downcast_ref::<Vec<(usize, usize)>>() {
+            return Some(format!("vuu:{v:?}"));
+        }
+        if let Some(v) = any.downcast_ref::<Vec<SingleDimLoad>>() {
+            return Some(format!("vsl:{:?}", v.iter().map(|l| l.value).collect::<Vec<_>>()));
+        }
+        if let Some(v) = any.downcast_ref::<Vec<MultiDimLoad>>() {
+            return Some(format!("vml:{:?}", v.iter().map(|l| l.load[..l.size].to_vec()).collect::<Vec<_>>()));
+        }
+        if let Some(v) = any.downcast_ref::<Vec<Option<SingleDimLoad>>>() {
+            return Some(format!("vosl:{:?}", v.iter().map(|l| l.map(|l| l.value)).collect::<Vec<_>>()));
+        }
+        if let Some(v) = any.downcast_ref::<Vec<Option<MultiDimLoad>>>() {
+            return Some(format!(
+                "voml:{:?}",
+                v.iter().map(|l| l.as_ref().map(|l| l.load[..l.size].to_vec())).collect::<Vec<_>>()
+            ));
+        }
+        None
+    }
+
+    fn render(index: &Index) -> (Vec<String>, usize) {
+        let mut rendered = index.values().filter_map(|any| render_value(any.as_ref())).collect::<Vec<_>>();
+        rendered.sort();
+        let opaque = index.len() - rendered.len();
+        (rendered, opaque)
+    }
+
+    impl RouteState {
+        /// Returns sorted rendering of all values of known plain types and amount of opaque ones.
+        pub fn verif_digest(&self) -> (Vec<String>, usize) {
+            render(&self.index)
+        }
+    }
+
+    impl SolutionState {
+        /// Returns sorted rendering of all values of known plain types and amount of opaque ones.
+        pub fn verif_digest(&self) -> (Vec<String>, usize) {
+            render(&self.index)
+        }
+    }
+}
